@@ -685,7 +685,9 @@ var highloadConfirmCheck = &core.Check{Name: "c15/confirm-highload", Quick: 40, 
 		return err
 	}
 	start := time.Now()
-	_, err = w.SendV2(context.Background(), time.Duration(c.Range("wait ms", 1, 50))*time.Millisecond, transfers(c.Range("messages", 0, 3), 5)...)
+	nm := c.Range("messages", 0, 3)
+	c.Note("messages", nm)
+	_, err = w.SendV2(context.Background(), time.Duration(c.Range("wait ms", 1, 50))*time.Millisecond, transfers(nm, 5)...)
 	sent, _ := chain.Snapshot()
 	if len(sent) != 1 {
 		return fmt.Errorf("highload SendV2 with confirmation: %d payloads sent (error %v)", len(sent), err)
@@ -697,6 +699,9 @@ var highloadConfirmCheck = &core.Check{Name: "c15/confirm-highload", Quick: 40, 
 	}
 	if time.Since(start) > 10*time.Second {
 		return fmt.Errorf("took %v", time.Since(start))
+	}
+	if nm >= 1 {
+		c.NonTrivial(hex.EncodeToString(key.Public().(ed25519.PublicKey)), nm)
 	}
 	return nil
 }}
@@ -741,14 +746,36 @@ var seedCheck = &core.Check{Name: "c15/seed", Quick: 8, Thorough: 400, Fn: func(
 	for i := range words {
 		words[i] = wallet.WORDLIST[sm.Intn(2048)]
 	}
+	// the search also collects near misses: phrases whose version byte is 1, 2, 128 or 255 instead of 0
 	tries := 0
-	for !walletref.MnemonicIsBasicSeed(strings.Join(words, " ")) {
+	nearMiss := map[byte]string{}
+	for {
+		p := strings.Join(words, " ")
+		b := walletref.MnemonicVersionByte(p)
+		if b == 0 && len(nearMiss) >= 2 {
+			break
+		}
+		if b == 1 || b == 2 || b == 128 || b == 255 {
+			nearMiss[b] = p
+		}
 		words[tries%24] = wallet.WORDLIST[sm.Intn(2048)]
-		if tries++; tries > 20000 {
+		if tries++; tries > 40000 {
 			return fmt.Errorf("HARNESS: no valid phrase found in %d tries", tries)
 		}
 	}
 	phrase := strings.Join(words, " ")
+	for _, b := range []byte{1, 2, 128, 255} {
+		if p, ok := nearMiss[b]; ok {
+			okLib, err := agree(p)
+			if err != nil {
+				return fmt.Errorf("phrase with version byte %d: %v", b, err)
+			}
+			if okLib {
+				return fmt.Errorf("HARNESS: near miss accepted without a report")
+			}
+			c.Class(fmt.Sprintf("near miss (version byte %d) rejected", b))
+		}
+	}
 	c.Note("phrase", phrase)
 	ok, err := agree(phrase)
 	if err != nil {
